@@ -19,9 +19,9 @@ func init() {
 	core.Register(&core.Prop{
 		ID: "C01",
 		Rule: "case = one pair of valid polygonal operands in general position (star rings of 3-60 vertices (300 thorough) with 0-3 holes, rotated comb and staircase rings, multi-polygons of 2-4 disjoint members, boxes; configurations: overlapping, B inside A, B inside a hole of A, A inside B, disjoint with overlapping bounding boxes, bounding-box-disjoint on one or both axes; random ring orientation/start/closure) run through all four operations plus the reverse difference for every receiver/argument presentation {Polygon, MultiPolygon, *Bounds}^2 the shapes admit; " +
-			"each result is judged at <= 96 margin points by the harness's exact even-odd membership (A, B and result rings), by the inclusion-exclusion area identities (exact operand areas, nesting-parity area of the result rings), ring closure and the empty-result rule; " +
-			"an evaluation is one operation result judged; non-trivial = operand pair whose true intersection and both differences each contain a margin point (distinct by operand hash)",
-		Assumptions: []string{"operands validated by the harness: simple rings, holes inside shells, no vertex of one operand within 1e-7*diameter of an edge of the other (general position)", "test points keep 1e-7*diameter clear of every input edge", "Polygonal.Area() of a result is compared only when its rings do not touch each other (geom documents hole detection as undefined there)"},
+			"each result is judged at <= 96 margin points by the harness's exact even-odd membership (A, B and result rings), by the inclusion-exclusion area identities (exact Operand areas, nesting-parity area of the result rings), ring closure and the empty-result rule; " +
+			"an evaluation is one operation result judged; non-trivial = Operand pair whose true intersection and both differences each contain a margin point (distinct by Operand hash)",
+		Assumptions: []string{"operands validated by the harness: simple rings, holes inside shells, no vertex of one Operand within 1e-7*diameter of an edge of the other (general position)", "test points keep 1e-7*diameter clear of every input edge", "Polygonal.Area() of a result is compared only when its rings do not touch each other (geom documents hole detection as undefined there)"},
 		Phases: []core.Phase{{Name: "ops", NumCases: func(t string) int {
 			if t == "thorough" {
 				return 120000
@@ -42,18 +42,18 @@ func init() {
 	})
 }
 
-// operand is a generated polygonal shape with its presentations.
-type operand struct {
-	polys []geom.Polygon // members (spelled)
-	box   *geom.Bounds   // non-nil when the shape is an axis-aligned rectangle
-	cx    float64
-	cy    float64
-	out   float64      // radius of a disc containing everything
-	in    float64      // radius of a disc around the centre inside the shape (0 if unknown)
-	holes []gen.Disc   // holes of a single star polygon
-	kind  string
-	rings [][]exact.P  // all rings (open) for membership
-	area  *big.Rat     // exact area
+// Operand is a generated polygonal shape with its presentations.
+type Operand struct {
+	Polys []geom.Polygon // members (spelled)
+	Box   *geom.Bounds   // non-nil when the shape is an axis-aligned rectangle
+	Cx    float64
+	Cy    float64
+	Out   float64    // radius of a disc containing everything
+	In    float64    // radius of a disc around the centre inside the shape (0 if unknown)
+	Holes []gen.Disc // holes of a single star polygon
+	Kind  string
+	Rings [][]exact.P // all rings (open) for membership
+	Area  *big.Rat    // exact area
 }
 
 func rot(p geom.Path, cx, cy, th float64) geom.Path {
@@ -66,26 +66,26 @@ func rot(p geom.Path, cx, cy, th float64) geom.Path {
 	return o
 }
 
-func genOperand(r *gen.R, cx, cy, rad float64, kind string, maxVerts int) operand {
-	o := operand{cx: cx, cy: cy, out: rad * 1.001, kind: kind}
+func GenOperand(r *gen.R, cx, cy, rad float64, kind string, maxVerts int) Operand {
+	o := Operand{Cx: cx, Cy: cy, Out: rad * 1.001, Kind: kind}
 	switch kind {
 	case "box":
 		w, h := rad*r.Range(0.3, 0.7), rad*r.Range(0.3, 0.7)
-		o.box = &geom.Bounds{Min: geom.Point{X: cx - w, Y: cy - h}, Max: geom.Point{X: cx + w, Y: cy + h}}
+		o.Box = &geom.Bounds{Min: geom.Point{X: cx - w, Y: cy - h}, Max: geom.Point{X: cx + w, Y: cy + h}}
 		ring := geom.Path{{X: cx - w, Y: cy - h}, {X: cx + w, Y: cy - h}, {X: cx + w, Y: cy + h}, {X: cx - w, Y: cy + h}}
-		o.polys = []geom.Polygon{{gen.RespellRandom(r, ring)}}
-		o.in = math.Min(w, h)
+		o.Polys = []geom.Polygon{{gen.RespellRandom(r, ring)}}
+		o.In = math.Min(w, h)
 	case "star", "starholes":
 		nh := 0
 		if kind == "starholes" {
 			nh = r.IntRange(1, 3)
 		}
 		sh := gen.StarPolygon(r, cx, cy, rad, r.IntRange(3, maxVerts), nh, 0)
-		o.polys = []geom.Polygon{sh.Poly}
-		o.in = sh.InR
-		o.holes = sh.Holes
+		o.Polys = []geom.Polygon{sh.Poly}
+		o.In = sh.InR
+		o.Holes = sh.Holes
 		if nh > 0 {
-			o.in = 0
+			o.In = 0
 		}
 	case "comb", "stair":
 		s := rad / math.Sqrt2 * 0.98
@@ -96,7 +96,7 @@ func genOperand(r *gen.R, cx, cy, rad float64, kind string, maxVerts int) operan
 			ring = gen.Staircase(r, cx-s, cy-s, 2*s, 2*s, r.IntRange(2, 8))
 		}
 		ring = rot(ring, cx, cy, r.Range(0, 2*math.Pi))
-		o.polys = []geom.Polygon{{gen.RespellRandom(r, ring)}}
+		o.Polys = []geom.Polygon{{gen.RespellRandom(r, ring)}}
 	case "multi":
 		n := r.IntRange(2, 4)
 		cells := r.Perm(4)
@@ -109,23 +109,23 @@ func genOperand(r *gen.R, cx, cy, rad float64, kind string, maxVerts int) operan
 				nh = r.IntRange(1, 2)
 			}
 			sh := gen.StarPolygon(r, mx, my, s*0.47, r.IntRange(3, 12), nh, 0)
-			o.polys = append(o.polys, sh.Poly)
+			o.Polys = append(o.Polys, sh.Poly)
 		}
 	}
-	o.rings = gen.ERings(o.polys)
+	o.Rings = gen.ERings(o.Polys)
 	// exact even-odd area: shells minus holes (ring 0 of each member is the shell)
-	o.area = new(big.Rat)
-	for _, pg := range o.polys {
+	o.Area = new(big.Rat)
+	for _, pg := range o.Polys {
 		for i, ring := range pg {
 			a := exact.AbsRat(exact.Area2(gen.EPath(gen.OpenRing(ring))))
 			if i == 0 {
-				o.area.Add(o.area, a)
+				o.Area.Add(o.Area, a)
 			} else {
-				o.area.Sub(o.area, a)
+				o.Area.Sub(o.Area, a)
 			}
 		}
 	}
-	o.area.Quo(o.area, big.NewRat(2, 1))
+	o.Area.Quo(o.Area, big.NewRat(2, 1))
 	return o
 }
 
@@ -134,20 +134,20 @@ type presentation struct {
 	g    geom.Polygonal
 }
 
-func (o *operand) presentations() []presentation {
+func (o *Operand) presentations() []presentation {
 	var ps []presentation
-	if len(o.polys) == 1 {
-		ps = append(ps, presentation{"Polygon", o.polys[0]})
+	if len(o.Polys) == 1 {
+		ps = append(ps, presentation{"Polygon", o.Polys[0]})
 	}
-	ps = append(ps, presentation{"MultiPolygon", geom.MultiPolygon(o.polys)})
-	if o.box != nil {
-		ps = append(ps, presentation{"*Bounds", o.box})
+	ps = append(ps, presentation{"MultiPolygon", geom.MultiPolygon(o.Polys)})
+	if o.Box != nil {
+		ps = append(ps, presentation{"*Bounds", o.Box})
 	}
 	return ps
 }
 
-func (o *operand) contains(p exact.P) bool {
-	return exact.PointInRings(p, o.rings, 3) == exact.Inside
+func (o *Operand) Contains(p exact.P) bool {
+	return exact.PointInRings(p, o.Rings, 3) == exact.Inside
 }
 
 var opNames = []string{"Intersection", "Union", "Difference", "XOr", "ReverseDifference"}
@@ -265,17 +265,17 @@ func ringsTouch(rings [][]exact.P, delta float64) bool {
 	return false
 }
 
-func generalPosition(a, b *operand, delta float64) bool {
-	for _, ring := range a.rings {
+func generalPosition(a, b *Operand, delta float64) bool {
+	for _, ring := range a.Rings {
 		for _, p := range ring {
-			if exact.DistToRings(p, b.rings) <= delta {
+			if exact.DistToRings(p, b.Rings) <= delta {
 				return false
 			}
 		}
 	}
-	for _, ring := range b.rings {
+	for _, ring := range b.Rings {
 		for _, p := range ring {
-			if exact.DistToRings(p, a.rings) <= delta {
+			if exact.DistToRings(p, a.Rings) <= delta {
 				return false
 			}
 		}
@@ -295,39 +295,39 @@ func run(c *core.Ctx, idx int) {
 	scale := math.Pow(10, r.Range(-2, 3))
 	ox, oy := r.Range(-5, 5)*scale, r.Range(-5, 5)*scale
 	cfg := configs[r.Intn(len(configs))]
-	var a, b operand
+	var a, b Operand
 	ra := scale * r.Range(0.5, 1.5)
 	switch cfg {
 	case "overlapping":
-		a = genOperand(r, ox, oy, ra, kinds[r.Intn(len(kinds))], maxVerts)
+		a = GenOperand(r, ox, oy, ra, kinds[r.Intn(len(kinds))], maxVerts)
 		rb := ra * r.Range(0.4, 1.6)
 		d := (ra + rb) * r.Range(0.1, 0.7)
 		th := r.Range(0, 2*math.Pi)
-		b = genOperand(r, ox+d*math.Cos(th), oy+d*math.Sin(th), rb, kinds[r.Intn(len(kinds))], maxVerts)
+		b = GenOperand(r, ox+d*math.Cos(th), oy+d*math.Sin(th), rb, kinds[r.Intn(len(kinds))], maxVerts)
 	case "b_inside_a", "a_inside_b":
-		outer := genOperand(r, ox, oy, ra, []string{"star", "box", "star"}[r.Intn(3)], maxVerts)
-		rb := outer.in * r.Range(0.3, 0.9)
-		inner := genOperand(r, ox, oy, rb, kinds[r.Intn(len(kinds))], maxVerts)
+		outer := GenOperand(r, ox, oy, ra, []string{"star", "box", "star"}[r.Intn(3)], maxVerts)
+		rb := outer.In * r.Range(0.3, 0.9)
+		inner := GenOperand(r, ox, oy, rb, kinds[r.Intn(len(kinds))], maxVerts)
 		if cfg == "b_inside_a" {
 			a, b = outer, inner
 		} else {
 			a, b = inner, outer
 		}
 	case "b_inside_hole_of_a":
-		a = genOperand(r, ox, oy, ra, "starholes", maxVerts)
-		h := a.holes[r.Intn(len(a.holes))]
-		b = genOperand(r, h.X, h.Y, h.In*r.Range(0.3, 0.9), []string{"star", "box", "comb", "multi", "starholes"}[r.Intn(5)], maxVerts)
+		a = GenOperand(r, ox, oy, ra, "starholes", maxVerts)
+		h := a.Holes[r.Intn(len(a.Holes))]
+		b = GenOperand(r, h.X, h.Y, h.In*r.Range(0.3, 0.9), []string{"star", "box", "comb", "multi", "starholes"}[r.Intn(5)], maxVerts)
 	case "disjoint_bbox_overlap":
-		a = genOperand(r, ox, oy, ra, kinds[r.Intn(len(kinds)-2)], maxVerts)
+		a = GenOperand(r, ox, oy, ra, kinds[r.Intn(len(kinds)-2)], maxVerts)
 		rb := ra * r.Range(0.5, 1.5)
 		d := (ra + rb) * r.Range(1.02/math.Sqrt2*1.0, 0.98)
 		if d*math.Sqrt2 < (ra+rb)*1.01 {
 			d = (ra + rb) * 1.01 / math.Sqrt2
 		}
 		sx, sy := float64(1-2*r.Intn(2)), float64(1-2*r.Intn(2))
-		b = genOperand(r, ox+sx*d, oy+sy*d, rb, kinds[r.Intn(len(kinds)-2)], maxVerts)
+		b = GenOperand(r, ox+sx*d, oy+sy*d, rb, kinds[r.Intn(len(kinds)-2)], maxVerts)
 	case "bbox_disjoint_both_axes", "bbox_disjoint_one_axis":
-		a = genOperand(r, ox, oy, ra, kinds[r.Intn(len(kinds))], maxVerts)
+		a = GenOperand(r, ox, oy, ra, kinds[r.Intn(len(kinds))], maxVerts)
 		rb := ra * r.Range(0.5, 1.5)
 		dx := (ra + rb) * r.Range(1.05, 2)
 		dy := (ra + rb) * r.Range(1.05, 2)
@@ -338,12 +338,12 @@ func run(c *core.Ctx, idx int) {
 			dx, dy = dy, dx
 		}
 		sx, sy := float64(1-2*r.Intn(2)), float64(1-2*r.Intn(2))
-		b = genOperand(r, ox+sx*dx, oy+sy*dy, rb, kinds[r.Intn(len(kinds))], maxVerts)
+		b = GenOperand(r, ox+sx*dx, oy+sy*dy, rb, kinds[r.Intn(len(kinds))], maxVerts)
 	}
 	diam := 0.0
 	minx, miny, maxx, maxy := math.Inf(1), math.Inf(1), math.Inf(-1), math.Inf(-1)
-	for _, o := range []*operand{&a, &b} {
-		for _, ring := range o.rings {
+	for _, o := range []*Operand{&a, &b} {
+		for _, ring := range o.Rings {
 			for _, p := range ring {
 				minx, miny, maxx, maxy = math.Min(minx, p.X), math.Min(miny, p.Y), math.Max(maxx, p.X), math.Max(maxy, p.Y)
 			}
@@ -356,7 +356,7 @@ func run(c *core.Ctx, idx int) {
 		return
 	}
 	// the bounding boxes decide which sub-category was really produced
-	abb, bbb := geom.MultiPolygon(a.polys).Bounds(), geom.MultiPolygon(b.polys).Bounds()
+	abb, bbb := geom.MultiPolygon(a.Polys).Bounds(), geom.MultiPolygon(b.Polys).Bounds()
 	bbDisjoint := !abb.Overlaps(bbb)
 	c.Count("cfg." + cfg)
 	cfgClass := "bbox-overlap"
@@ -367,24 +367,24 @@ func run(c *core.Ctx, idx int) {
 	// test points with a clear margin from every input edge
 	var pts []exact.P
 	var inA, inB []bool
-	allRings := append(append([][]exact.P{}, a.rings...), b.rings...)
+	allRings := append(append([][]exact.P{}, a.Rings...), b.Rings...)
 	add := func(p exact.P) {
 		if exact.DistToRings(p, allRings) <= delta {
 			c.Count("points.rejected_margin")
 			return
 		}
 		pts = append(pts, p)
-		inA = append(inA, a.contains(p))
-		inB = append(inB, b.contains(p))
+		inA = append(inA, a.Contains(p))
+		inB = append(inB, b.Contains(p))
 	}
 	for k := 0; k < 48; k++ {
 		add(exact.P{X: r.Range(minx, maxx), Y: r.Range(miny, maxy)})
 	}
-	for _, o := range []*operand{&a, &b} {
+	for _, o := range []*Operand{&a, &b} {
 		got := 0
 		for tries := 0; tries < 200 && got < 24; tries++ {
-			p := exact.P{X: o.cx + r.Range(-1, 1)*o.out, Y: o.cy + r.Range(-1, 1)*o.out}
-			if o.contains(p) {
+			p := exact.P{X: o.Cx + r.Range(-1, 1)*o.Out, Y: o.Cy + r.Range(-1, 1)*o.Out}
+			if o.Contains(p) {
 				add(p)
 				got++
 			}
@@ -399,18 +399,18 @@ func run(c *core.Ctx, idx int) {
 		}
 	}
 	hh := core.NewHasher()
-	gen.HashGeom(hh, geom.MultiPolygon(a.polys))
-	gen.HashGeom(hh, geom.MultiPolygon(b.polys))
+	gen.HashGeom(hh, geom.MultiPolygon(a.Polys))
+	gen.HashGeom(hh, geom.MultiPolygon(b.Polys))
 	if witness[0] && witness[2] && witness[4] {
 		c.Nontrivial(hh.Sum())
 	}
 	baseDetail := func() map[string]interface{} {
-		return map[string]interface{}{"A": gen.Dump(geom.MultiPolygon(a.polys)), "B": gen.Dump(geom.MultiPolygon(b.polys)), "config": cfg, "kinds": a.kind + "/" + b.kind}
+		return map[string]interface{}{"A": gen.Dump(geom.MultiPolygon(a.Polys)), "B": gen.Dump(geom.MultiPolygon(b.Polys)), "config": cfg, "kinds": a.Kind + "/" + b.Kind}
 	}
 	if c.WantSample() && witness[0] {
 		c.Sample(baseDetail())
 	}
-	areaA, areaB := exact.F(a.area), exact.F(b.area)
+	areaA, areaB := exact.F(a.Area), exact.F(b.Area)
 
 	for _, pa := range a.presentations() {
 		for _, pb := range b.presentations() {
@@ -484,7 +484,7 @@ func run(c *core.Ctx, idx int) {
 					detail["point"] = []float64{p.X, p.Y}
 					detail["in_A"], detail["in_B"] = inA[bad], inB[bad]
 					c.Violate(fmt.Sprintf("%s:%s:%s", kind, opNames[op], cfgClass),
-						fmt.Sprintf("%s.%s(%s) [%s, %s/%s]: point (%v,%v) in A=%v in B=%v but in result=%v", recvName, opn, argName, cfg, a.kind, b.kind, p.X, p.Y, inA[bad], inB[bad], !truth(op, inA[bad], inB[bad])), detail)
+						fmt.Sprintf("%s.%s(%s) [%s, %s/%s]: point (%v,%v) in A=%v in B=%v but in result=%v", recvName, opn, argName, cfg, a.Kind, b.Kind, p.X, p.Y, inA[bad], inB[bad], !truth(op, inA[bad], inB[bad])), detail)
 					continue
 				}
 				if withinBad >= 0 {
